@@ -43,9 +43,12 @@ RequestBody(d, o) ==
                            \o (IF o.complexPart THEN << Node("", "c", << Leaf(d.tns, "x", "7"), Leaf(d.tns, "y", "s") >>) >> ELSE <<>>))
   ELSE \* document/literal: the part's element itself
        Node(d.tns, o.name \o "Request", << Leaf(d.tns, "a", "7") >>)
+\* the header elements may be declared in a SECOND inline schema of <types> that does not say elementFormDefault (so its
+\* local elements are unqualified), after a first one that says "qualified": every schema has its own form default
+HdrChildNs(d) == IF d.hdrForm = "unqualified" /\ d.types = "inline" THEN "" ELSE d.tns
 RequestEnvelope(d, o) ==
   Node(SOAPENV, "Envelope",
-       (IF o.header THEN << Node(SOAPENV, "Header", << Node(d.tns, "Auth", << Leaf(d.tns, "token", "s") >>) >>) >> ELSE <<>>)
+       (IF o.header THEN << Node(SOAPENV, "Header", << Node(d.tns, "Auth", << Leaf(HdrChildNs(d), "token", "s") >>) >>) >> ELSE <<>>)
        \o << Node(SOAPENV, "Body", << RequestBody(d, o) >>) >>)
 
 \* --- the client exchange ---------------------------------------------------
